@@ -38,7 +38,8 @@ LONG = {"quick": 96, "thorough": 720}
 LONG_MODES = MODES + ["max256", "max100", "max7"]
 LONG_LEN = (200, 1200)
 READ_BUF = 256            # Terminal.inBuf
-MULTIBYTE = ["é", "ß", "東", "€", "😀", "𝄞"]    # 2, 2, 3, 3, 4, 4 bytes in UTF-8
+MULTIBYTE = ["é", "ß", "東", "€", "😀", "𝄞",    # 2, 2, 3, 3, 4, 4 bytes in UTF-8
+             "\u00ad", "\u200d", "\u200c"]           # soft hyphen (2), zero-width joiner / non-joiner (3): format characters are text too
 STRADDLES = [(2, 1), (3, 1), (3, 2), (4, 1), (4, 2), (4, 3)]   # (bytes of the character, bytes before the boundary)
 FINDING = "semicolon-in-quotes"
 PER_SIGNATURE = 3        # replay files written per failure signature (shortest inputs first)
